@@ -39,8 +39,76 @@ class Model:
         return v
 
 
+class C16Stacks:
+    """Tap-side monitor: the counter laws on the wrapper stacks of a real run, at every GSC consultation and at the end.
+
+    received(top) = sum of the deme counters on the levels using the stack; for every wrapper j: forwarded(j) = n_j;
+    received(j-1) = forwarded(j); n = received for counting / stats / precision wrappers, n = min(N, received) for a
+    cutoff; objective invocations with the stack's tag = forwarded(innermost wrapper); ETA = 1-based index of the first
+    recorded value within the precision (sticky), else inf.
+    """
+
+    prop = "C16"
+    ctx = None
+
+    def _check(self, tree, where):
+        from pyhms.core.problem import EvalCutoffProblem, PrecisionCutoffProblem
+
+        ctx = self.ctx
+        if ctx.scope:
+            return  # inside a deme's construction the deme is not yet listed in tree.levels
+        seen = set()
+        for li, objs in enumerate(ctx.stacks):
+            if id(objs[0]) in seen:
+                continue
+            seen.add(id(objs[0]))
+            shared = bool(ctx.desc.get("shared"))
+            tag = -1 if shared else li
+            levels = range(len(ctx.stacks)) if shared else [li]
+            received = sum(d._problem._n_evals for lv in levels if lv < len(tree.levels) for d in tree.levels[lv])
+            ys = [e[2] for e in ctx.log if e[0] == tag]
+            ctx.cov["C16.real_stack_checks"] += 1
+            for w in reversed(objs[1:]):
+                kind = type(w).__name__
+                n = w.n_evaluations
+                want = min(w._eval_cutoff, received) if isinstance(w, EvalCutoffProblem) else received
+                if n != want:
+                    ctx.violation("C16", f"real run: counter of a {kind} differs from the calls it received / forwarded", {"where": where, "level": li, "got": int(n), "want": int(want), "stack": ctx.desc["levels"][li]["stack"]})
+                if isinstance(w, PrecisionCutoffProblem):
+                    hit = next((i + 1 for i, y in enumerate(ys[:n]) if abs(y - w._global_optima) <= w.precision), None)
+                    if (hit is None) != (not w.hit_precision) or (hit is not None and w.ETA != hit):
+                        ctx.violation("C16", "real run: precision wrapper's ETA / hit flag differ from the first recorded value within the precision", {"where": where, "got": [float(w.ETA), bool(w.hit_precision)], "want": hit})
+                    if hit is not None:
+                        ctx.cov["C16.real_precision_hits"] += 1
+                received = n
+            if len(ys) != received:
+                ctx.violation("C16", "real run: objective invocations differ from the calls forwarded by the innermost wrapper", {"where": where, "invoked": len(ys), "forwarded": int(received), "level": li})
+            if any(isinstance(w, EvalCutoffProblem) and w._n_evals >= w._eval_cutoff for w in objs[1:]):
+                ctx.cov["C16.real_stack_checks_with_saturated_cutoff"] += 1
+
+    def on_gsc(self, tree, verdict, kind, deme):
+        if self.ctx.n_gsc % 5 == 0:
+            self._check(tree, "gsc")
+
+    def on_run_end(self, tree):
+        self._check(tree, "end")
+
+    def on_run_aborted(self, tree):
+        if tree is not None:
+            self._check(tree, "end")
+
+
 def make_case(seed, idx, tier):
     rng = gen.case_rng("C16", seed, idx)
+    if idx % 50 == 49:
+        prof = {"dim": (2, 3), "levels": [1, 2, 2, 3], "gscs": ["evals", "fevals", "precision", "melimit"], "max_pop": 12}
+        d = gen.gen_tree_case(rng, prof)
+        if not any(lv["stack"] for lv in d["levels"]):
+            st = [rng.choice(["count", "stats", f"cutoff:{rng.choice([60, 150, 400])}", f"prec:{rng.choice([1e-1, 1e-3])}"]) for _ in range(rng.randint(1, 3))]
+            for lv in d["levels"]:
+                lv["stack"] = st if d["shared"] else list(st)
+        d["kind"] = "c16run"
+        return d
     depth = [0, 1, 2, 2, 3, 3, 4, 4][idx % 8]
     stack = []
     # stratify the (inner, outer) adjacent pair on the first two positions
@@ -82,6 +150,12 @@ def make_case(seed, idx, tier):
 
 
 def run_case(desc):
+    if desc.get("kind") == "c16run":
+        from .. import harness
+        from ..props import run_result
+
+        ctx = harness.run_case(desc, [C16Stacks()])
+        return run_result(ctx, desc)
     from pyhms.core.problem import (
         EvalCountingProblem,
         EvalCutoffProblem,
